@@ -12,7 +12,11 @@ observed: paired scenarios through the real sync and asyncio driver stacks over 
           three runtime probes — compared with each other directly.  Lists with repeated entries under eager on/off
           (send_commands / send_configs / send_config / *_from_file) and per-call timeout_ops x device latency in scripted
           time (c06_pairs.VClock / VirtualLoop: the real timeout decorators of both stacks run, nothing sleeps) are two of
-          the scenario families.  A broken twin-diff obligation for function F makes focus_search run the scenario
+          the scenario families; the error-path family (c06_pairs.gen_error_scenario: failed escalation with a wrong / empty /
+          missing secondary password against devices that re-prompt, refuse or hang; refused / ignored / unanswered
+          de-escalation; failing on_open / on_close hooks; timeout_ops armed so that silence ends in the real operation
+          timeout) compares exception type + message class + explicit cause chain, bytes written and the state afterwards.
+          A broken twin-diff obligation for function F makes focus_search run the scenario
           families that exercise F (c06_pairs.FN_FAMILY) with extra seeds."""
 import asyncio
 import json
@@ -418,6 +422,23 @@ def _tally(dist, sc, a):
             kw = op[2] if len(op) > 2 else {}
             it["with_complete_patterns"] += 1 if kw.get("interaction_complete_patterns") else 0
             it["outcomes"][o[0] if o[0] != "exc" else o[1]] = it["outcomes"].get(o[0] if o[0] != "exc" else o[1], 0) + 1
+    if sc.get("family") == "errors":
+        er = dist["error_paths"]
+        er["scenarios"] += 1
+        meta = sc.get("err") or {}
+        for k in ("mode", "behaviour", "secondary", "on_open", "on_close"):
+            if k in meta:
+                er[k][str(meta[k])] = er[k].get(str(meta[k]), 0) + 1
+        T = sc.get("driver_kwargs", {}).get("timeout_ops", 0)
+        er["timeout_armed"][str(bool(T))] = er["timeout_armed"].get(str(bool(T)), 0) + 1
+        for x in a.get("errors", []):
+            key = "%s <- %s" % (x[1], ",".join(x[3])) if x[3] else x[1]
+            er["failures"][key] = er["failures"].get(key, 0) + 1
+            er["message_classes"][x[2][:60]] = er["message_classes"].get(x[2][:60], 0) + 1
+        er["with_failure"] += 1 if a.get("errors") else 0
+        er["reopened_after_failure"] += 1 if any(op[0] == "open" and i > (a["errors"][0][0] if a.get("errors") else 10 ** 6)
+                                                  for i, op in enumerate(sc["ops"])) else 0
+        er["transport_closed_at_end"] += 0 if a.get("transport_open") else 1
     tr = a.get("dialogue", [])
     if tr:
         it = dist["interactive"]
@@ -433,6 +454,9 @@ def _new_dist():
                       "last_entry_earlier_and_eager": 0, "with_promptless_lines": 0, "ops": {}},
             "timeouts": {"scenarios": 0, "connection_timeout_ops": {}, "slow_lines_hist": {}, "per_call": {}, "per_call_ops": {},
                          "per_call_outcomes": {}},
+            "error_paths": {"scenarios": 0, "mode": {}, "behaviour": {}, "secondary": {}, "on_open": {}, "on_close": {},
+                            "timeout_armed": {}, "failures": {}, "message_classes": {}, "with_failure": 0,
+                            "reopened_after_failure": 0, "transport_closed_at_end": 0},
             "interactive": {"dialogues": 0, "events_hist": {}, "same_response_in_a_row": 0, "hidden_inputs": 0,
                             "with_complete_patterns": 0, "outcomes": {}, "device_skipped_a_question": 0,
                             "device_refused_an_answer": 0, "left_open": 0, "hidden_answers_typed": 0}}
@@ -472,6 +496,7 @@ def pair_suite(rep, thorough):
     n_inter = 6000 if thorough else 220          # interactive dialogues on top of the mixed scenarios
     n_lists = 6000 if thorough else 300          # lists with repeated entries, eager on / off
     n_timed = 8000 if thorough else 400          # per-call timeout_ops x device latency (scripted time)
+    n_err = 8000 if thorough else 500            # error paths: failed escalation / de-escalation / on_open, timeout armed
     scs = list(P.corpus())
     for f in rep.findings:
         if f.get("replay"):
@@ -489,6 +514,8 @@ def pair_suite(rep, thorough):
         scs.append(P.gen_scenario(rng, family="lists", faulty=(rng.random() < 0.15)))
     for i in range(n_timed):
         scs.append(P.gen_scenario(rng, family="timeouts", faulty=(rng.random() < 0.15)))
+    for i in range(n_err):
+        scs.append(P.gen_scenario(rng, family="errors"))
     dist = _new_dist()
     nfail, sy = _run_pairs(rep, P, scs, dist, "", [0])
     if sy:
@@ -575,6 +602,15 @@ def shrink_pair(P, sc, a, b, d):
         dd, x, y = differs(t)
         if dd:
             cur, ca, cb, cd = t, x, y, dd
+    # driver options / device behaviours the difference does not need
+    for where, key in (("driver_kwargs", "on_open"), ("driver_kwargs", "on_close"), ("device", "mute"), ("device", "refuse"),
+                       ("device", "ignore"), ("device", "auth_hang"), ("device", "auth_attempts")):
+        if key in (cur.get(where) or {}):
+            t = json.loads(json.dumps(cur))
+            del t[where][key]
+            dd, x, y = differs(t)
+            if dd:
+                cur, ca, cb, cd = t, x, y, dd
     # device description: drop the outputs / dialogues / questions' extras the difference does not need
     for key in ("outputs", "dialogs", "latency"):
         for name in sorted(cur["device"].get(key) or {}):
@@ -782,7 +818,17 @@ def run(rep):
                 "no prompt (banner / certificate / macro text) whose lines repeat the last entry; + the timeouts family: connection "
                 "timeout_ops in {0, 0.35, 2.1, 20.1} x per-call timeout_ops (not given / None / 0 / 0.0 / the connection's / 0.05 ... "
                 "200.1) on every send_* operation x 1-5 device lines with a latency of 0.25 / 1 / 10 / 100 s, in scripted time "
-                "(deadlines never coincide with an answer: latencies are multiples of 0.25 s, timeouts are not); when a twin-diff obligation breaks: focus_search = the families mapped to "
+                "(deadlines never coincide with an answer: latencies are multiples of 0.25 s, timeouts are not); + the errors family: "
+                "connection timeout_ops in {0.35, 2.1, 20.1, 0} x mode auth (escalation line enable / start shell user root behind a "
+                "password dialogue; auth_secondary wrong / empty / not given / right; device re-prompts 3x / 2x, refuses at once, hangs "
+                "after a wrong / any password, refuses / ignores the escalation line or goes silent after it; platform on_open / none / "
+                "escalating on_open; acquire_priv / send_command / send_configs / send_interactive(privilege_level)) | mode deescalate "
+                "(a line leading down refused / ignored / unanswered, operations walking up then down) | mode on_open (named user hooks "
+                "for on_open x on_close: raise ValueError / own exception / a scrapli exception, unknown privilege level, a command, a "
+                "command then raise, a config, an escalation; device healthy / hanging on a session set-up line / ignoring configure) "
+                "each followed by 1-3 of get_prompt / send_command / acquire_priv / send_configs / close / re-open; a read with nothing "
+                "pending waits 1e6 scripted seconds before Starved, so an armed timeout_ops expires in the real decorators; every failed "
+                "operation is observed as (type, message class, explicit cause types), plus transport open / closed at the end; when a twin-diff obligation breaks: focus_search = the families mapped to "
                 "the changed function (c06_pairs.FN_FAMILY) on the driver kinds that reach it, up to 8 (thorough 24) extra seeds; "
                 "telnet: grammar + malformed streams, every single cut + 1-byte + random cuts, both real transports; "
                 "non-trivial = the device executed at least one line / more than one event / at least one command; "
@@ -861,7 +907,11 @@ MANIFEST = {
             "interaction_complete_patterns, questions the device skips with events still queued, hidden inputs; command / config lists "
             "with repeated entries under eager on / off through send_commands / send_configs / send_config / the *_from_file variants, "
             "incl. lines after which the device prints no prompt; per-call timeout_ops values x connection timeout_ops x device latency "
-            "on every send_* operation, so that one stack timing out and the other not is a difference in results), on both real Telnet "
+            "on every send_* operation, so that one stack timing out and the other not is a difference in results; error paths: failed "
+            "privilege escalation with a wrong / empty / missing auth_secondary against devices that re-prompt, refuse or hang, refused / "
+            "ignored / unanswered de-escalation, failing on_open / on_close hooks, with timeout_ops armed — compared by exception type, "
+            "message class, explicit cause chain, bytes written, cached privilege level, device mode, transport state and the outcome of "
+            "the operations / the re-open that follow), on both real Telnet "
             "transports over scripted sockets and by two runtime probes, comparing the two stacks with each other; it is not a theorem. "
             "A broken twin-diff obligation for function F triggers a search over the scenario families that exercise F with extra seeds.",
     "note": "Trusted: Coq kernel + vm_compute; gen/gen_twins.py (inspect/ast/tokenize of the current tree; the diff hash is computed there); the "
@@ -878,7 +928,15 @@ MANIFEST = {
             "timer when the loop would block (asyncio.wait_for / sleep unchanged), the sync decorator's `signal` and `time` module "
             "attributes are replaced by a scripted SIGALRM timer whose handler is called from the transport's blocking read when the "
             "device's latency passes the deadline; the worker-thread variant of the sync timeout (system / telnet transports, non-main "
-            "threads) is not exercised. Not modelled: asyncio scheduler, cancellation inside "
+            "threads) is not exercised. The error-path scenarios (family errors) are oracle-only as well: there is no Coq model of "
+            "acquire_priv / _escalate / _deescalate / open's hook handling; their sync/asyncio equality rests on the token identity "
+            "obligations of those functions plus the direct comparison of the two real stacks. In them silence of the device is a "
+            "scripted wait of 1e6 s (sync: the scripted SIGALRM clock is advanced inside the blocking read; asyncio: asyncio.sleep on "
+            "the virtual loop), which an armed timeout_ops ends through the real decorators; with timeout_ops = 0 it still ends as "
+            "Starved (blocks for ever). The message class of an exception is its text with quoted names / numbers / the async prefix "
+            "removed, compared between the two stacks only (never with a literal); of the cause chain only explicit `raise ... from` "
+            "links are compared (the implicit context of a timeout differs by construction). User hooks are a fixed set of named "
+            "functions (c06_pairs._hook_steps). Not modelled: asyncio scheduler, cancellation inside "
             "transport reads, signal/thread timeouts, real sockets. Known findings (listed, still reported): sync Telnet stops answering after 10 "
             "negotiation commands while asyncio keeps answering; a refused Telnet connection raises ScrapliConnectionNotOpened (sync) vs "
             "ScrapliConnectionError (asyncio); timeout_ops expiring inside send_and_read raises ScrapliConnectionNotOpened (sync: the "
